@@ -118,9 +118,10 @@ def judge(case):
         obs = observe(payload, kind)
         want = _REF.get((payload, kind))
         if want is None:
-            want = case.get("refs", {}).get(f"{i}")
-            want = tuple(want) if want is not None else None
-        if want is not None and obs != want:
+            # replay from a file / a case outside the enumeration: take the reference now, in a child
+            want = references([{"payload": payload}])[0][(payload, kind)]
+            _REF[(payload, kind)] = want
+        if obs != want:
             sig = "result-depends-on-history"
             if obs[0] == "exc" and want[0] != "exc":
                 sig += ":fails-after-history"
@@ -245,8 +246,9 @@ def explore_threads(item):
         out = core.Outcome()
         out.bad("tables-modified", f"{name}: library tables changed by concurrent parses")
         st.add({"kind": "threads", "name": name, "payloads": [pa, pb], "gran": gran, "choices": []}, out)
-    if len(steps_seen) > 1 and not st.violations:
-        raise core.Broken(f"{name}: step counts vary between schedules {steps_seen} (nondeterminism)")
+    # step counts may legitimately differ between schedules (e.g. a private one-slot cache that
+    # hits or misses depending on the interleaving); results, not step counts, are the oracle
+    st.extra["distinct_step_profiles"] = len(steps_seen)
     st.extra["steps_per_thread"] = {f"{name}/{gran}": sum(next(iter(steps_seen)))} if steps_seen else {}
     return st
 
@@ -445,6 +447,21 @@ def run(tier, seed, t0):
                              "shape": shape, "kind": "ok"})
         except (R.BadDefinition, R.TooLong):
             pass
+    # same identity, same order / different degree (and vice versa) for the harmonic message; same
+    # satellite and signal masks with different cell masks for MSM
+    for ident, shape in (("4076_201", {"IDF035": 0, "IDF037": 2, "IDF038": 1}),
+                         ("4076_201", {"IDF035": 0, "IDF037": 4, "IDF038": 1}),
+                         ("4076_201", {"IDF035": 0, "IDF037": 4, "IDF038": 3}),
+                         ("4076_201", {"IDF035": 1, "IDF037": 1, "IDF038": 1, "IDF037_02": 3, "IDF038_02": 1}),
+                         ("1074", {"DF394": (1 << 63) | (1 << 60), "DF395": (1 << 30) | (1 << 22), "DF396": 0b1010}),
+                         ("1074", {"DF394": (1 << 63) | (1 << 60), "DF395": (1 << 30) | (1 << 22), "DF396": 0b1111}),
+                         ("1124", {"DF394": (1 << 63) | (1 << 60), "DF395": (1 << 30) | (1 << 22), "DF396": 0b1111})):
+        try:
+            payload, _o, nb = R.build(ident, shape, "fp")
+            conflict.append({"name": f"{ident}#c{len(conflict)}", "payload": payload, "identity": ident,
+                             "shape": shape, "kind": "ok"})
+        except (R.BadDefinition, R.TooLong):
+            pass
     fp = bytes((29 * i + 7) & 0xFF for i in range(40))
     for sub in (73, 201, 10, 138):
         if sub == 201:
@@ -453,6 +470,13 @@ def run(tier, seed, t0):
         conflict.append({"name": f"unk4076_{sub:03d}", "payload": (v << 1).to_bytes(3, "big") + fp[:11],
                          "identity": f"4076_{sub:03d}", "shape": None, "kind": "unknown"})
     corp = corp + conflict[21:]
+    # references for the items added above (computed in children that parse nothing else)
+    ref2, snaps2 = references(conflict[21:])
+    _REF.update(ref2)
+    if snaps2 != {_SNAP0}:
+        o = core.Outcome()
+        o.bad("tables-modified", "a single parse operation in a fresh process modifies the library tables")
+        st.add({"kind": "hist", "history": []}, o)
     cases_ = []
     for it in corp:
         for k in KINDS:
@@ -464,7 +488,7 @@ def run(tier, seed, t0):
             if (ka, kb) != ("msg1", "msg1"):
                 cases_.append({"kind": "hist", "snap_each": True,
                                "history": [(a["payload"], ka), (b["payload"], kb)]})
-    tri = conflict if tier == "thorough" else conflict[:12]
+    tri = conflict if tier == "thorough" else conflict[:8] + conflict[21:28]
     for a, b, c in itertools.product(tri, repeat=3):
         cases_.append({"kind": "hist", "history": [(a["payload"], "msg1"), (b["payload"], "msg2"),
                                                    (c["payload"], "msg1")]})
